@@ -113,6 +113,9 @@ def check(ck):
     from .cache_model import CacheModel
     ck.rule("C07.R11", "override keys cannot enter the content-addressed namespace", 1)
     ck.run(check_override_namespace, ck, "C07.R11")
+    ck.rule("C07.R12", "a recorded versioned key is never re-resolved through a mutable pointer: codecs look up the latest version "
+                       "of a key only for content-addressed keys, and a partition passes its parent's versioned keys on unchanged", 2)
+    ck.run(check_pinned_keys, ck, "C07.R12")
     ck.rule("C07.R10", "the memory cache serves a memento only the value cached under that memento's own key", 1)
     ck.run(lambda: check_cache_reads_own_key(ck, CacheModel(ck), "C07.R10"))
     R1, R2, R3, R4, R5, R6 = ("C07.R%d" % i for i in range(1, 7))
@@ -636,6 +639,99 @@ def check_override_namespace(ck, R):
           "override keys under %r are refused / escaped" % (mstem + "/") if okm else
           "a key override under %r is used verbatim: with data and metadata under one root (the default) the object lands in the metadata tree, "
           "list_functions yields it as a function and fails on it" % (mstem + "/"), ov.where())
+
+
+def _codec_functions(ck):
+    """Every function of the result codecs (classes nested in Codec / DefaultCodec, helpers included), as the front end left them."""
+    out = []
+    for ci in ck.repo.module("storage_base").all_classes():
+        if ci.qual.startswith(("storage_base.Codec", "storage_base.DefaultCodec")):
+            out += list(ci.methods.values())
+    return out
+
+
+def _carried_field(fa, expr, node_id, fields, depth=6):
+    """The field of an EXISTING index entry that `expr` is, unchanged: `<entry>.f`, `getattr(<entry>, 'f')`, `<entry>[i]`, a local
+    bound to one of these, or a name unpacked from an entry by an assignment or in a loop target.  None for anything computed."""
+    if depth <= 0:
+        return None
+    if isinstance(expr, ast.Call) and A.call_attr(expr) == "getattr" and len(expr.args) == 2 and A.const_str(expr.args[1]) in fields:
+        return A.const_str(expr.args[1])
+    ef = _entry_field(fa, expr, node_id, fields, depth)
+    if ef is not None:
+        return ef[1] if ef[1] in fields else None
+    if isinstance(expr, ast.Name):
+        ds = fa.df.reaching(node_id, expr.id)
+        if len(ds) == 1 and ds[0].kind == "assign" and ds[0].value is not None:
+            return _carried_field(fa, ds[0].value, ds[0].node, fields, depth - 1)
+        if len(ds) == 1 and ds[0].kind in ("for", "unpack"):
+            tg = getattr(ds[0].stmt, "target", None)
+            for t in ([tg] if tg is not None else getattr(ds[0].stmt, "targets", [])):
+                for x in ast.walk(t):
+                    if isinstance(x, (ast.Tuple, ast.List)) and len(x.elts) == len(fields) and not any(isinstance(e, ast.Starred) for e in x.elts):
+                        for i, e in enumerate(x.elts):
+                            if isinstance(e, ast.Name) and e.id == expr.id:
+                                return fields[i]
+    return None
+
+
+def check_pinned_keys(ck, R):
+    """A versioned key (key + version) names bytes for good; the pointer of a bare key names whatever was written under that name
+    last.  Only for a content-addressed key do the two agree (same key => same bytes), so that is the only kind of key a codec may
+    resolve through the pointer when it decides which object a result -- or an entry of a partition index -- is recorded as.  An
+    entry a partition inherits from its parent is recorded under the parent's versioned key itself."""
+    from . import partition_model as PM
+    blob_store = ck.repo.try_func(BLOB + ".store")
+    tpl = _content_key_template(ck)
+    seen = 0
+    for fi in _codec_functions(ck):
+        if not any(A.call_attr(c) == "get_versioned_key" for c in A.body_calls(fi.node)):
+            continue
+        fa = FA(ck, fi)
+        # the one place where a key override decides: under an override nothing is looked up (R2 decides what is returned there)
+        ov = fi.params[2] if blob_store is not None and fi.qual == blob_store.qual and len(fi.params) > 2 else None
+        asm = refined(fa, param_truth_atom(ov, False)) if ov else Assume(fa, lambda e: None)
+        for c in fa.calls("get_versioned_key"):
+            seen += 1
+            arg = c.args[0] if c.args else A.kwarg(c, "key")
+            ok = arg is not None
+            bad = None
+            if ov and expr_live(refined(fa, param_truth_atom(ov, True)), c):
+                ok, bad = False, "an override key"
+            for i in (expr_live(asm, c) if ok else []):
+                for (leaf, n) in asm.cases(arg, i):
+                    dd = fa.df.deps(leaf, n)
+                    if not ("call:output_key_for_content_key" in dd or _spells_content_key(fa, leaf, n, tpl)):
+                        ok, bad = False, "`%s`" % A.short(leaf, 50)
+            ck.ob(R, fa.key(c, "latest-version-only-of-content-keys"), ok,
+                  "the latest version is looked up for a content-addressed key" if ok else
+                  "%s resolves %s through the key's mutable pointer and records the answer: the key is not built from the hash of the bytes, so "
+                  "the latest version under it is whatever was written there last (an override key is overwritten in place) -- the value "
+                  "recorded keeps reading bytes other than the ones it was created with" % (fi.qual.split(".", 1)[1], bad or "a key"), fa.where(c))
+    ck.need(seen, "no codec resolves a content key to its stored version (get_versioned_key): cannot place the dedupe path")
+    # what a partition records for each of its values
+    fa = FA(ck, PM.STORE)
+    fields = PM.entry_type_fields(ck) or _namedtuple_fields(ck, "storage_base", ("result_type", "content_key"))
+    ents = [(c, ef) for (c, ef) in PM.entries_in(fa.node, fields) if fa.nodes(c)]
+    asm = Assume(fa, lambda e: None)
+    stored = 0
+    for (c, ef) in ents:
+        okc = True
+        bad = None
+        for i in fa.nodes(c):
+            for (leaf, n) in asm.cases(ef["content_key"], i):
+                if isinstance(leaf, ast.Call) and A.call_attr(leaf) == "store":
+                    stored += 1
+                    continue            # written (or shared by content) in this activation: the key the codec answered
+                if _carried_field(fa, leaf, n, fields) == "content_key":
+                    continue            # an existing entry's versioned key, as it is
+                okc, bad = False, leaf
+        ck.ob(R, fa.key(c, "entry-key-unchanged"), okc,
+              "index entries record the key their value was stored under / the parent's versioned key itself" if okc else
+              "a partition index entry is recorded under `%s`, which is neither the key the codec returned for the value stored now nor the "
+              "versioned key of the parent's entry: the merged partition reads other bytes than its parent did when it was created"
+              % A.short(bad, 60), fa.where(c))
+    ck.need(stored, "PicklePartitionStrategy.store: no index entry records the key returned by the codec's store")
 
 
 def check_who_may_delete(ck, R4):
